@@ -1,8 +1,8 @@
 SPECIFICATION Spec
-CONSTANT P = 97
-CONSTANT NBits = 7
-CONSTANT D = 7
-CONSTANT Q = 13
+CONSTANT P = 29
+CONSTANT NBits = 5
+CONSTANT D = 3
+CONSTANT Q = 3
 CONSTANT Family = "logic"
 CONSTANT Tier = "thorough"
 CONSTANT Weaken = "none"
